@@ -137,6 +137,14 @@ func (c *supervisionContext) applyDecision(ctx *Context, targets vivid.ActorRefs
 	default:
 		// IsEscalate 及任何预料之外的决策值均作为升级处理（见 vivid.SupervisionDecision 的约定），否则故障 Actor 将永久停留在暂停状态
 		// 升级后视为自身的故障，但是携带了下级故障信息
+		// 根 Actor 没有父级可供升级：升级到此为止，按系统默认处理（停止目标）。
+		// 否则升级消息会被投递回根 Actor 自身的邮箱，根 Actor 将无休止地"监督自己"，其邮箱保持暂停，Stop 也无法完成
+		if ctx.parent == nil {
+			for _, target := range targets {
+				ctx.Kill(target, false, reason)
+			}
+			return
+		}
 		// 挂起当前 Actor 的消息处理并且向父级 Actor 发送监督上下文以触发父级 Actor 的监督策略
 		ctx.mailbox.Pause()
 		subSupervisionContext := newSupervisionContext(ctx.ref, c.fault)
